@@ -7,7 +7,12 @@ Correspondence: harness/cmd/scope drive (the REAL app/scope, eventscope, context
 its own goroutine; every wait is "for what must happen", see engine.go) against the compiled model driver
 m_scope on generated histories (reset … settle), compared line by line: outcome of every call, the
 listener invocations it caused (listener, event, data scope), the Close calls that returned during it with
-their results, and IsDone / len(Errors()) of every scope after it.
+their results, IsDone / len(Errors()) of every scope after it, which closing goroutines are parked inside
+which listener, and how many close events every scope has fired.
+Listeners are arbitrary code: `on <s> <event> gate <g> ok|err` registers a listener that runs (blocks) until
+`release <g>`; while it runs the closing goroutine is parked inside the real Trigger and the history goes on
+(other scopes close, errors are appended, the parent's Close — issued BEFORE the child's — must stay blocked
+and must not have fired a commit/rollback event: sampled before every operation, never awaited).
 Spec vs implementation: `scope oracle` evaluates the property's clauses on the implementation alone
 (root probes see every event of the tree); `scope judge` does the same for one given history (used as the
 Spec verdict on a history where implementation and model disagree).
@@ -27,25 +32,40 @@ META = dict(
     level_claimed=dict(
         category="proof",
         text="Lean 4 theorems over ALL schedules (lists of acts of any length: tree building with shared and isolated "
-             "children to any depth, listener registration with failing listeners, AddTasks/DoneTask/AppendError/Kill/"
-             "Stop, the two halves of Close, the watcher goroutine's moves; disabled acts are skipped) of an executable "
-             "transition system mirroring app/scope: close_event_order, commit_xor_rollback (+ commit_rollback_exclusive), "
-             "close_result, double_close_refused (+ finish_once), shared_same_fate / shared_child_fails_parent, "
-             "isolated_child_own_context / isolated_child_contained, isolated_inherits_stop / _kill. The waiting "
-             "clause is proved for tasks and for every child that signed on (close_waits_partial); for a child "
-             "created from an already-done scope it is DISPROVED (close_waits_full_false, KF-C11-1). The model is "
-             "tied to /repo on every run by a line-by-line differential over random histories on the real packages "
-             "(full listener log, every Close result, IsDone and error count of every scope after every call).",
+             "children to any depth, listener registration with failing listeners and with GATED listeners (arbitrary "
+             "code that runs until a release act), AddTasks/DoneTask/AppendError/Kill/Stop, the steps of the goroutine "
+             "running Close (program counter opened, begun, closing, t0, t1, t2, after, signing, signed, finished; a step "
+             "parks inside a running listener and every other goroutine may act meanwhile), the watcher goroutine's "
+             "moves; disabled acts are skipped) of an executable transition system mirroring app/scope: "
+             "close_event_order (+ _coarse, close_events_prefix), commit_xor_rollback (+ _coarse, "
+             "commit_rollback_exclusive), close_result (+ close_result_keeps_error, finish_returns_or_parks), "
+             "double_close_refused (+ finish_once), shared_same_fate / shared_child_fails_parent, "
+             "isolated_child_own_context / isolated_child_contained, isolated_inherits_stop / _kill, and for running "
+             "listeners child_afterclose_before_parent_triple (in every reachable state a parent that has started its "
+             "triple has only signed-on children whose after-close listeners have all returned), "
+             "parent_sees_child_listener_error, gated_listener_blocks_only_its_closer (+ others_can_act_while_parked), "
+             "signoff_before_afterclose_breaks_waits (the variant with parent.DoneTask() before the AfterClose trigger "
+             "reaches a state contradicting it: explicit witness). The waiting clause is proved for tasks and for every "
+             "child that signed on (close_waits_partial); for a child created from an already-done scope it is "
+             "DISPROVED (close_waits_full_false, KF-C11-1). The model is tied to /repo on every run by a line-by-line "
+             "differential over random histories on the real packages (full listener log, every Close result, IsDone "
+             "and error count of every scope, parked goroutines and close events fired per scope after every call), "
+             "including histories whose listeners block on harness gates while the parent's Close is pending.",
         design_ref="DESIGN.md 3 C11"),
     level_note="Trusted: Lean kernel (axioms propext/Classical.choice/Quot.sound only); the hand-written model's "
                "correspondence to /repo (differential, reach printed in coverage.histogram); sync.WaitGroup, "
                "channel close/select and sync.Once semantics as modelled; atomicity of the modelled acts (each "
-               "call other than Close is one act: the differential runs one particular interleaving — calls issued "
-               "one after the other, Close goroutines and watcher goroutines awaited after each); the harness's "
-               "event-scope wrapper and waiting discipline (harness/cmd/scope/engine.go). Domain: DoneTask only for an "
-               "outstanding task; no child of a scope whose Close has returned.",
-    technique="Lean 4 proof (invariant of a labelled transition system, all schedules) + differential correspondence "
-              "+ property oracle on the implementation",
+               "call other than Close is one act; a closing goroutine is interruptible exactly where a gated listener "
+               "runs, between its triggers, before parent.DoneTask() and before its return — the differential opens "
+               "the first kind of window with harness gates and runs one particular interleaving otherwise: calls "
+               "issued one after the other, goroutines awaited until returned / parked / waiting after each); the "
+               "harness's event-scope wrapper and waiting discipline (harness/cmd/scope/engine.go). Domain: DoneTask "
+               "only for an outstanding task; no child of a scope that has signed off; On waits while a listener of "
+               "that event scope runs (not executed: `busy`); only listeners of the eight close events are gated; a "
+               "child created after its parent's wait ended (`late`) is outside the waiting clause.",
+    technique="Lean 4 proof (invariant of a labelled transition system with explicit program counters of the closing "
+              "goroutines and gated listeners, all schedules) + differential correspondence with harness-gated "
+              "listeners (deterministic adversarial family + random) + property oracle on the implementation",
 )
 
 KF_ID = "KF-C11-1"
@@ -186,10 +206,27 @@ def _account(ctx, ops_path, impl_path, samples):
         heads = [r.split(" ", 1)[0] for r in rs]
         kinds = set()
         cascade = False
+        parked_seen = False
         for o, r, hd in zip(hist, rs, heads):
             op = o.split(" ", 1)[0]
             if op in ("reset", "settle"):
                 continue
+            if op == "on" and " gate " in o:
+                op = "ongate"
+            mg = re.search(r" G\[([^\]]*)\]", r)
+            if mg and mg.group(1):
+                parked_seen = True
+                ctx.histogram["branch:goroutine-parked-in-listener"] += 1
+                if op == "close" and hd == "blocked":
+                    ctx.histogram["branch:close-blocked-while-a-listener-runs"] += 1
+                if op in ("kill", "stop", "apperr", "addtasks", "donetask", "child", "on") and hd == "ok":
+                    ctx.histogram["branch:call-succeeds-while-a-listener-runs"] += 1
+                mt = re.search(r" T\[([^\]]*)\]", r)
+                if op == "child" and hd == "ok" and mt:
+                    par, fired = o.split(" ")[1], mt.group(1).split(",")
+                    if par.isdigit() and int(par) < len(fired) and int(fired[int(par)]) >= 2 and \
+                            re.search(r"(^|,)%s@" % par, mg.group(1)):
+                        ctx.histogram["branch:late-child-of-a-scope-parked-in-its-triple"] += 1
             kinds.add(op + ":" + hd)
             ctx.histogram[op + ":" + hd] += 1
             m = re.search(r" C\[([^\]]*)\]", r)
@@ -210,7 +247,9 @@ def _account(ctx, ops_path, impl_path, samples):
                 ctx.histogram["branch:commit-listener-ran"] += 1
             if ":error:" in r:
                 ctx.histogram["branch:error-event-delivered"] += 1
-        nontrivial = ("closed" in heads or cascade) and any(h in heads for h in ("panic", "refused", "blocked"))
+        nontrivial = ("closed" in heads or cascade) and any(h in heads for h in ("panic", "refused", "blocked", "busy"))
+        if parked_seen:
+            ctx.histogram["histories:with-a-parked-goroutine"] += 1
         ctx.note_case("\n".join(hist), nontrivial=nontrivial)
         if len(samples) < 3 and nontrivial and len(hist) < 16:
             samples.append(dict(ops=hist, impl=rs))
@@ -240,13 +279,17 @@ def run(ctx):
     go = ctx.build_go("scope")
     model = ctx.build_model("m_scope")
     shards = ctx.pick(4, 12)
-    n_hist = ctx.pick(3200, 200000)
+    n_hist = ctx.pick(4800, 200000)
     n_oracle = ctx.pick(3000, 120000)
-    ctx.rule = ("histories `reset, new, [11 root probes], 3..32 random ops, [drain], settle` from VERIF_SEED over a pool of "
-                "<= 8 scopes (shared/isolated children to depth 4, listeners on all 11 events with 1/4 failing, AddTasks/"
-                "DoneTask/AppendError/Kill/Stop/Close incl. calls on closing and closed scopes, second Close, unknown ids): "
+    ctx.rule = ("histories `reset, new, [11 root probes], 3..32 random ops, [drain], [releases], settle` from VERIF_SEED over a "
+                "pool of <= 8 scopes (shared/isolated children to depth 4, listeners on all 11 events with 1/4 failing, AddTasks/"
+                "DoneTask/AppendError/Kill/Stop/Close incl. calls on closing and closed scopes, second Close, unknown ids; 1/2 of "
+                "the histories use GATED listeners on the close events (half of them afterClose, 1/3 returning an error, four "
+                "gates shared between listeners), close parents before children, release the gates in random order); shard 0 "
+                "starts with the deterministic family of 64 `parent Close pending, child Close enters a gated listener (8 events "
+                "x ok/err x shared/isolated x child/grandchild), calls issued meanwhile, release, settle`: "
                 "%d histories for the differential, %d for the oracle; non-trivial = at least one Close returned AND at "
-                "least one call panicked / was refused / blocked; distinct = distinct history text" % (n_hist, n_oracle))
+                "least one call panicked / was refused / blocked / busy; distinct = distinct history text" % (n_hist, n_oracle))
     concrete_found = False
     samples = []
     # --- corpus first
@@ -341,22 +384,33 @@ def run(ctx):
             "on:panic", "child:invalid", "donetask:undisciplined", "branch:cascade-of-closes",
             "branch:close-released-by-donetask", "branch:close-returned-error", "branch:close-returned-nil",
             "branch:rollback-listener-ran", "branch:commit-listener-ran", "branch:error-event-delivered", "oracle:kf1",
+            "ongate:ok", "release:ok", "on:busy", "branch:goroutine-parked-in-listener", "branch:close-released-by-release",
+            "branch:call-succeeds-while-a-listener-runs", "branch:late-child-of-a-scope-parked-in-its-triple",
             "oracle:rollback", "oracle:commit", "oracle:blocked", "oracle:isolated"]
     zero = [k for k in want if not ctx.histogram.get(k)]
     if zero:
         ctx.notes.append("coverage gap: zero hits for " + ", ".join(zero))
     ctx.assumptions += [
-        "each modelled act is atomic: the differential exercises calls issued one after the other with Close and watcher "
-        "goroutines awaited in between; concurrent interleavings inside one call are covered by the theorems only as far "
-        "as the acts really are atomic (C12 treats the concurrent signalling separately)",
+        "each modelled act is atomic: a closing goroutine can be interrupted where a gated listener runs (exercised by the "
+        "differential through harness gates), between two triggers, before parent.DoneTask() and before its return (covered "
+        "by the theorems: `step` acts; the differential runs these pieces back to back); every other call is one act; "
+        "concurrent interleavings inside one call are covered by the theorems only as far as the acts really are atomic "
+        "(C12 treats the concurrent signalling separately)",
+        "a gated listener stands for arbitrary listener code that eventually returns nil or an error and touches the scopes "
+        "only through that return value; listeners that call back into the scope tree are separate acts of the schedule",
+        "On on an event scope one of whose listeners is running waits for the read lock (sync.RWMutex): modelled as not "
+        "enabled, answered `busy` by both drivers without making the call",
+        "a child created after its parent's wait has ended (possible from a commit listener) cannot be waited for: the "
+        "all-states clause child_afterclose_before_parent_triple is about children that signed on before",
         "DoneTask is called only for a task added by a successful AddTasks (a surplus DoneTask is sync.WaitGroup misuse: "
         "negative-counter panic or a stolen child sign-off); such histories are outside the model and are not executed "
         "(`undisciplined`)",
-        "no child is created from a scope whose Close has returned (its event and data scopes are nil)",
+        "no child is created from a scope that has signed off (its event and data scopes are nil)",
         "propagate over-approximates the watcher goroutine: the clean-stop variant is allowed whenever the parent is done",
     ]
     ctx.trusted_base.append("harness/cmd/scope/engine.go: event-scope wrapper (delegates to the real eventscope), own wait-group "
-                            "accounting used only to decide what to wait for, runtime.Stack to see watcher goroutines parked")
+                            "accounting used only to decide what to wait for, runtime.Stack to see watcher goroutines parked, "
+                            "gates (a gated listener blocks on a harness channel; turns are given lowest scope first)")
     if failed:
         ctx.obligation_violations(failed, searcher=lambda: concrete_found)
     if not ctx.quick():
